@@ -384,7 +384,7 @@ Section Walk.
               | None => None
               | Some w =>
                   let to' := VRef t i (w_to w) in
-                  Some {| w_equal := w_equal w; w_to := if w_equal w then unchanged from to' else to'; w_log := w_log w |}
+                  Some {| w_equal := w_equal w; w_to := unchanged from to'; w_log := w_log w |}     (* the comments around a node are around what it has become, too *)
               end
           | VStruct _ xs, VStruct t ys =>
               let ss := starts_of (end_of nend r) xs (fst r) in
@@ -588,7 +588,45 @@ Fixpoint first_node_slice (cs : list value) (ss es : list Z) : option (region * 
   | _, _, _ => None
   end.
 
-Definition file_nend (from : value) : Z := end_of nopos (vpos from, vend from) from.
+Definition file_nend (from : value) : Z :=
+  if is_node from then end_of nopos (vpos from, vend from) from else nopos.
+
+(* the same tree up to positions (validity only), attached comments and "is a node" flags *)
+Fixpoint sameb (x y : value) : bool :=
+  match x, y with
+  | VNil t, VNil t' => N.eqb t t'
+  | VPos a, VPos b => Bool.eqb (valid a) (valid b)
+  | VAtom t a, VAtom t' b => N.eqb t t' && N.eqb a b
+  | VRef t _ e, VRef t' _ e' => N.eqb t t' && sameb e e'
+  | VSlice t en xs, VSlice t' en' ys => N.eqb t t' && Bool.eqb en en' &&
+      (fix all (xs ys : list value) : bool :=
+         match xs, ys with [], [] => true | x :: xs', y :: ys' => sameb x y && all xs' ys' | _, _ => false end) xs ys
+  | VStruct t xs, VStruct t' ys => N.eqb t t' &&
+      (fix all (xs ys : list value) : bool :=
+         match xs, ys with [], [] => true | x :: xs', y :: ys' => sameb x y && all xs' ys' | _, _ => false end) xs ys
+  | _, _ => false
+  end.
+
+Fixpoint sameb_all (xs ys : list value) : bool :=
+  match xs, ys with [], [] => true | x :: xs', y :: ys' => sameb x y && sameb_all xs' ys' | _, _ => false end.
+
+Definition plain_type (t : N) : bool := negb (N.eqb t T_object) && negb (N.eqb t T_cgroup).
+
+(* the fields of a file other than its first list of nodes (the declarations) are the same in both
+   snapshots; the declarations are a list of nodes in both *)
+Fixpoint others_sameb (cs cs' : list value) : bool :=
+  match cs, cs' with
+  | VSlice t true _ :: tl, VSlice t' true _ :: tl' => N.eqb t t' && plain_type t && sameb_all tl tl'
+  | c :: tl, c' :: tl' => sameb c c' && others_sameb tl tl'
+  | _, _ => false
+  end.
+
+Definition file_okb (from to : value) : bool :=
+  match from, to with
+  | VRef tF iF (VStruct tS cs), VRef tF' _ (VStruct tS' cs') =>
+      N.eqb tF tF' && plain_type tF && N.eqb tS tS' && plain_type tS && n_isnode iF && others_sameb cs cs'
+  | _, _ => false
+  end.
 
 Definition file_decls (from : value) : option (region * list value) :=
   match from with
@@ -600,27 +638,30 @@ Definition file_decls (from : value) : option (region * list value) :=
   | _ => None
   end.
 
+Fixpoint first_node_slice_to (l : list value) : option (list value) :=
+  match l with VSlice _ true ys :: _ => Some ys | _ :: l' => first_node_slice_to l' | [] => None end.
+
 Definition file_decls_to (to : value) : list value :=
   match to with
-  | VRef _ _ (VStruct _ cs) =>
-      match (fix f (l : list value) := match l with VSlice _ true ys :: _ => Some ys | _ :: l' => f l' | [] => None end) cs with
-      | Some ys => ys | None => [] end
+  | VRef _ _ (VStruct _ cs) => match first_node_slice_to cs with Some ys => ys | None => [] end
   | _ => []
   end.
 
 (* report for one step: are the side conditions met; for each declaration the script pairs as
-   identical: its index, whether all its comments are attached in the sense above, and
-   whether every call keeps clear of them *)
+   identical: its index, whether all its comments are attached in the sense above, and those
+   of the attached ones that some call does not keep clear of (a comment that the snapshot
+   associates with the declaration but that lies beyond its neighbours - inherited from the
+   declaration it was paired with as Modified by an earlier step - is none of its own) *)
 Definition decl_report (from to : value) (calls : list region) : option (bool * list (nat * bool * list (Z * Z))) :=
   match file_decls from with
   | None => None
   | Some (r, xs) =>
       let es := xedits (the_script xs (file_decls_to to)) in
-      Some (list_okb (file_nend from) r xs es,
+      Some (file_okb from to && list_okb (file_nend from) r xs es,
             flat_map (fun jx => let '(j, x, e) := jx in
                         if is_identity e then
                           let cs := filter (fun c => fst c <? snd c) (own_comments x) in
-                          [(j, forallb (attachedb xs j x) cs, filter (fun c => negb (forallb (clearb c) calls)) cs)]
+                          [(j, forallb (attachedb xs j x) cs, filter (fun c => attachedb xs j x c && negb (forallb (clearb c) calls)) cs)]
                         else [])
                      (combine (combine (seq 0 (length xs)) xs) es))
   end.
@@ -628,5 +669,29 @@ Definition decl_report (from to : value) (calls : list region) : option (bool * 
 Definition decl_conditions (from to : value) : list bool :=
   match file_decls from with
   | None => []
-  | Some (r, xs) => list_ok_parts (file_nend from) r xs (xedits (the_script xs (file_decls_to to)))
+  | Some (r, xs) => list_ok_parts (file_nend from) r xs (xedits (the_script xs (file_decls_to to))) ++ [file_okb from to]
+  end.
+
+(* does the step change exactly one declaration, in the sense of C17_single_change_pairs_every_other_declaration:
+   lists of the same length, the same trees except at one index, where nodeComparer finds a difference *)
+Definition one_change_at (xs ys : list value) : option nat :=
+  if negb (Nat.eqb (length xs) (length ys)) then None else
+  match filter (fun i => negb (sameb (nth i xs (VNil 0)) (nth i ys (VNil 0)))) (seq 0 (length xs)) with
+  | [a] => if r_equal (compare_nodes (nth a xs (VNil 0)) (nth a ys (VNil 0))) then None else Some a
+  | _ => None
+  end.
+
+(* -1: the hypotheses do not hold; 0: they hold and every other declaration is paired as identical; 1: they hold and one is not *)
+Definition one_change_report (from to : value) : Z :=
+  match file_decls from with
+  | None => -1
+  | Some (_, xs) =>
+      let ys := file_decls_to to in
+      match one_change_at xs ys with
+      | None => -1
+      | Some a =>
+          let es := xedits (the_script xs ys) in
+          if forallb (fun j => Nat.eqb j a || match nth_error es j with Some Identity => true | _ => false end) (seq 0 (length xs))
+          then 0 else 1
+      end
   end.
